@@ -276,10 +276,31 @@ func registerCoins(P *Program) {
 		}
 		return Tuple{true, it.mkCoin(it.coinT(), d, v)}
 	})
-	P.reg(C+"IsValid", func(it *Interp, a []Value) Value { return mkNot(coinsAnyNeg(it.toCoins(a[0]))) })
+	// validity: a theory value is canonical (zero == absent), so it is valid iff nothing is negative; a literal list is
+	// valid iff every listed amount is strictly positive, denominations are valid, sorted and unique (types/coin.go Validate)
+	valid := func(it *Interp, v Value) Value {
+		if s, ok := v.(*SliceV); ok {
+			if s.Len == 0 {
+				return true
+			}
+			var cs []Value
+			prev := ""
+			for i, e := range s.Arr.V.(*ArrayV).Elems[s.Off : s.Off+s.Len] {
+				d, amt := it.coinFields(e)
+				if !validDenom(d) || (i > 0 && d <= prev) {
+					return false
+				}
+				prev = d
+				cs = append(cs, mkCmp(">", amt, zero0))
+			}
+			return mkAnd(cs...)
+		}
+		return mkNot(coinsAnyNeg(it.toCoins(v)))
+	}
+	P.reg(C+"IsValid", func(it *Interp, a []Value) Value { return valid(it, a[0]) })
 	P.reg(C+"Validate", func(it *Interp, a []Value) Value {
-		if it.branchOn(coinsAnyNeg(it.toCoins(a[0]))) {
-			return &ErrV{Root: "coins/invalid", Msg: "coin is not positive"}
+		if !it.branchOn(valid(it, a[0])) {
+			return &ErrV{Root: "coins/invalid", Msg: "invalid coins"}
 		}
 		return (*ErrV)(nil)
 	})
